@@ -203,8 +203,8 @@ func hexes(bs [][]uint64) string {
 
 func main() {
 	mon.Main(mon.Spec{
-		Prop: "C08",
-		Rule: "case = synthetic instruction stream of 0..40 instructions (lengths 1..8, gaps, unsorted input) with constant, conditional (one/both arms constant), indirect, self and next-instruction jumps, targets at/inside/outside instructions and in gaps, valid or invalid entry point; non-trivial = stream that must fail, or stream producing >=3 blocks; distinct by listing",
+		Prop:        "C08",
+		Rule:        "case = synthetic instruction stream of 0..40 instructions (lengths 1..8, gaps, unsorted input) with constant, conditional (one/both arms constant), indirect, self and next-instruction jumps, targets at/inside/outside instructions and in gaps, valid or invalid entry point; non-trivial = stream that must fail, or stream producing >=3 blocks; distinct by listing",
 		Explanation: "oracle: cut set computed from the statement with an own enumeration of IP-store alternatives: fail iff the entry or a constant target is not an instruction start; otherwise cut after every instruction with a real target, at address gaps, before every constant target and the entry, nowhere else; compared with Code.Blocks() by original addresses",
 		Assumptions: []string{"refir evaluation of closed jump alternatives", "instructions do not overlap; one IP store per instruction of width 8"},
 		Cases: func(t string) int {
